@@ -19,6 +19,16 @@ ROOT = A.ROOT
 BUILD = os.path.join(ROOT, "build")
 
 
+COMMON_ASSUMPTIONS = [
+    "trusted base: every line listed under coverage.trusted_base (external_body / assume_specification / axiom in shims/*.rs): contracts of std, tokio, bytes, rustls and of repository objects as seen from their callers",
+    "async erasure: awaited operations complete in sequence; interleavings of other tasks at await points are not modelled (rule A); a detached spawn whose body reads only moved captures is executed at the spawn point",
+    "interior-mutable state is hoisted into an explicit state parameter: each call is verified as one atomic section (rule H); lock discipline is checked by ghost flags (rule L), not by a model of the scheduler",
+    "machine arithmetic is NOT treated as mathematical: Verus generates overflow / truncation / index obligations for every executable operation of the extracted text; where the code wraps on purpose (fetch_add) the shim contract says wrapping_add",
+    "no unsafe code occurs in any extracted unit; assume/admit occur nowhere outside shims/",
+    "termination: loops that end carry a decreases clause; the accept loops and Server::listen never return by design (exec_allows_no_decreases_clause) and are specified by loop invariants",
+]
+
+
 def load_prop(pid):
     return json.load(open(os.path.join(ROOT, "props", pid + ".json")))
 
@@ -265,7 +275,7 @@ def main(argv):
             "explanation": "each obligation is discharged by Verus/Z3 for all inputs and all loop iterations (no bound); "
                            "the verified text is extracted from /repo's working tree on this run with the edit classes listed in extraction_audit",
         },
-        "assumptions": prop.get("assumptions", []),
+        "assumptions": prop.get("assumptions", []) + COMMON_ASSUMPTIONS,
         "wall_s": round(wall, 2),
         "violations": len(violations) + replay_violations,
     }
